@@ -63,6 +63,9 @@ def model_to_dict(m, limit=60):
     return out
 
 
+PREFER = None      # set per contract by the runner (Contract(prefer='cvc5'))
+
+
 def discharge(ob, use_cvc5=True):
     """Decide one obligation. Sets ob.verdict/backend/model/secs."""
     t0 = time.time()
@@ -76,6 +79,22 @@ def discharge(ob, use_cvc5=True):
         s.add(h)
     s.add(z3.Not(ob.goal))
     smt2 = s.to_smt2()      # before check(): z3 prints rewritten (non-standard) terms afterwards
+    tried_cvc5 = False
+    if PREFER == 'cvc5' and use_cvc5:
+        # per-contract solver order (word equations): cvc5 first; anything but unsat falls through to z3 as usual
+        res = run_cvc5(smt2)
+        tried_cvc5 = True
+        if res == 'unsat':
+            ob.verdict, ob.backend, ob.secs = 'proved', 'cvc5', time.time() - t0
+            if THOROUGH:
+                s.set('timeout', int(CROSS_TIMEOUT_S * 1000))
+                r2 = s.check()
+                ob.secs = time.time() - t0
+                if r2 == z3.unsat:
+                    ob.backend = 'z3&cvc5'
+                elif r2 == z3.sat:
+                    ob.verdict, ob.backend = 'undecided', 'disagreement:z3=sat,cvc5=unsat'
+            return ob
     r = s.check()
     ob.secs = time.time() - t0
     if r == z3.unsat:
@@ -99,7 +118,7 @@ def discharge(ob, use_cvc5=True):
         ob.model = model_to_dict(s.model())
         ob.z3model = s.model()
         return ob
-    if use_cvc5:
+    if use_cvc5 and not tried_cvc5:
         res = run_cvc5(smt2)
         ob.secs = time.time() - t0
         if res == 'unsat':
